@@ -123,17 +123,36 @@ func c14Run(s *c14Scn) verdict {
 
 	khPath := ""
 
-	switch s.KH {
-	case "has":
+	// every second cell names the host instead of giving its address: the known-hosts entry that counts is the one
+	// recorded under the CONFIGURED name
+	host := "127.0.0.1"
+	if s.idx%2 == 1 {
+		host = "localhost"
+	}
+
+	other, _, _ := newEd25519()
+	khLine := func(h string, k ssh.PublicKey) string {
+		return fmt.Sprintf("[%s]:%d %s", h, srv.Port, string(ssh.MarshalAuthorizedKey(k)))
+	}
+	khContent := func(kind string) []byte {
+		switch kind {
+		case "has":
+			return []byte(khLine(host, srv.HostKey.PublicKey()))
+		case "other":
+			c := khLine(host, other.PublicKey())
+			if host != "127.0.0.1" {
+				c += khLine("127.0.0.1", srv.HostKey.PublicKey()) // the right key, but under a name that was not configured
+			}
+
+			return []byte(c)
+		}
+
+		return []byte("# nothing here\n")
+	}
+
+	if s.KH == "has" || s.KH == "other" || s.KH == "empty" {
 		khPath = filepath.Join(dir, "known_hosts")
-		_ = os.WriteFile(khPath, []byte(srv.KnownHostsLine(srv.HostKey.PublicKey())), 0o600)
-	case "other":
-		other, _, _ := newEd25519()
-		khPath = filepath.Join(dir, "known_hosts")
-		_ = os.WriteFile(khPath, []byte(srv.KnownHostsLine(other.PublicKey())), 0o600)
-	case "empty":
-		khPath = filepath.Join(dir, "known_hosts")
-		_ = os.WriteFile(khPath, []byte("# nothing here\n"), 0o600)
+		_ = os.WriteFile(khPath, khContent(s.KH), 0o600)
 	}
 
 	if khPath != "" {
@@ -146,7 +165,7 @@ func c14Run(s *c14Scn) verdict {
 		standin := filepath.Join(dir, "standin.sh")
 		_ = os.WriteFile(standin, []byte("#!/bin/sh\nprintf '%s\\n' \"$@\" > "+argvFile+"\nsleep 3\n"), 0o700)
 
-		d, derr := generic.NewDriver("127.0.0.1", append(append([]util.Option{}, opts...), options.WithSystemTransportOpenBin(standin),
+		d, derr := generic.NewDriver(host, append(append([]util.Option{}, opts...), options.WithSystemTransportOpenBin(standin),
 			options.WithSystemTransportOpenArgs([]string{"-o", "LogLevel=ERROR"}), options.WithTimeoutOps(400*time.Millisecond))...)
 		if derr != nil {
 			fail(&v, "C14:system:argv:new", "%v", derr)
@@ -191,7 +210,7 @@ func c14Run(s *c14Scn) verdict {
 		}
 
 		switch {
-		case len(argv) == 0 || argv[0] != "127.0.0.1":
+		case len(argv) == 0 || argv[0] != host:
 			fail(&v, "C14:system:argv:host", "%s: first argument is %q, must be the host (argv %q)", cell, argv, argv)
 		case strings.Contains(joined, c14Pass):
 			fail(&v, "C14:system:argv:password-on-command-line", "%s: the password appears in the ssh argument list %q", cell, argv)
@@ -214,10 +233,40 @@ func c14Run(s *c14Scn) verdict {
 		if !v.OK {
 			return v
 		}
+
+		// the default port is passed like any other (an ssh config file must not be able to redirect the connection)
+		if s.idx%4 == 0 {
+			argv22 := filepath.Join(dir, "argv22")
+			standin22 := filepath.Join(dir, "standin22.sh")
+			_ = os.WriteFile(standin22, []byte("#!/bin/sh\nprintf '%s\\n' \"$@\" > "+argv22+"\nsleep 3\n"), 0o700)
+
+			d22, derr22 := generic.NewDriver(host, append(append([]util.Option{}, opts...), options.WithPort(22), options.WithSystemTransportOpenBin(standin22),
+				options.WithTimeoutOps(400*time.Millisecond))...)
+			if derr22 == nil {
+				_, _ = withWatchdog(5*time.Second, func() { _ = d22.Open() })
+
+				var raw22 []byte
+
+				for i := 0; i < 300; i++ {
+					raw22, _ = os.ReadFile(argv22)
+					if len(raw22) > 0 && strings.HasSuffix(string(raw22), "\n") {
+						break
+					}
+
+					time.Sleep(10 * time.Millisecond)
+				}
+
+				if j22 := " " + strings.Join(strings.Split(strings.TrimSpace(string(raw22)), "\n"), " ") + " "; len(raw22) > 0 && !strings.Contains(j22, " -p 22 ") {
+					fail(&v, "C14:system:argv:missing:port-22", "%s: with port 22 configured the argument list %q does not name the port", cell, j22)
+
+					return v
+				}
+			}
+		}
 	}
 
 	// --- the connection itself
-	d, err := generic.NewDriver("127.0.0.1", opts...)
+	d, err := generic.NewDriver(host, opts...)
 	if err != nil {
 		fail(&v, "C14:new-driver", "%s: %v", cell, err)
 
@@ -247,6 +296,61 @@ func c14Run(s *c14Scn) verdict {
 		}
 
 		return v
+	}
+
+	// the decision is taken on what the known-hosts file says NOW: change it and connect again through the same path
+	if s.Strict && khPath != "" && (oerr == nil) == s.Connect {
+		flipTo, wantConnect := "has", true
+		if s.KH == "has" {
+			flipTo, wantConnect = "other", false
+		}
+
+		if oerr == nil {
+			_, _ = withWatchdog(4*time.Second, func() { _ = d.Close() })
+		}
+
+		_ = os.WriteFile(khPath, khContent(flipTo), 0o600)
+
+		srv.mu.Lock()
+		srv.PasswordSeen = nil
+		srv.mu.Unlock()
+
+		d2, err2 := generic.NewDriver(host, opts...)
+		if err2 == nil {
+			var o2 error
+
+			fin2, _ := withWatchdog(20*time.Second, func() { o2 = d2.Open() })
+
+			srv.mu.Lock()
+			pw2 := len(srv.PasswordSeen)
+			srv.mu.Unlock()
+
+			switch {
+			case !fin2:
+				fail(&v, "C14:"+s.Transport+":open-hang", "%s: second connection did not return", cell)
+			case (o2 == nil) != wantConnect && o2 == nil:
+				fail(&v, "C14:"+s.Transport+":connected-despite-host-key:kh-changed-to-"+flipTo, "%s: after the known-hosts file was changed to hold %s the next connection was still accepted (password offered: %v)", cell, flipTo, pw2 > 0)
+			case (o2 == nil) != wantConnect:
+				fail(&v, "C14:"+s.Transport+":refused:kh-changed-to-"+flipTo, "%s: after the known-hosts file was changed to hold the server's key the next connection failed: %v", cell, o2)
+			}
+
+			if o2 == nil {
+				_, _ = withWatchdog(4*time.Second, func() { _ = d2.Close() })
+			}
+
+			if !v.OK {
+				return v
+			}
+		}
+
+		// restore for the checks below
+		_ = os.WriteFile(khPath, khContent(s.KH), 0o600)
+
+		if oerr == nil {
+			// the first connection was closed above: the rest of the cell (identity, first command) uses a fresh one
+			d, _ = generic.NewDriver(host, opts...)
+			_, _ = withWatchdog(20*time.Second, func() { oerr = d.Open() })
+		}
 	}
 
 	if !s.Connect {
